@@ -94,10 +94,21 @@ def main():
         "checks": [], "not_applicable": [],
         "notes": "see DESIGN.md; known_findings.json lists recorded and repaired defects",
     }
+    add_file = ROOT / "bin" / "claims_add.json"
+    adds = json.loads(add_file.read_text()) if add_file.exists() else {}
+    import re
     for p in props:
         pid = p["id"]
         if pid in CLAIMS:
-            c = CLAIMS[pid]
+            c = dict(CLAIMS[pid])
+            # the number of property theorems is counted from the source, not kept by hand
+            src = (ROOT / "lean" / "Props" / f"{pid}.lean").read_text()
+            n = len(re.findall(rf"^theorem {pid}_", src, flags=re.M))
+            c["text"] = re.sub(rf"\(lean/Props/{pid}\.lean, \d+\)", f"(lean/Props/{pid}.lean, {n})", c["text"])
+            c["text"] = re.sub(rf"\(lean/Props/{pid}\.lean\)", f"(lean/Props/{pid}.lean, {n})", c["text"])
+            if pid in adds:
+                c["text"] = c["text"] + " " + adds[pid]["text"]
+                c["technique"] = c["technique"] + adds[pid].get("technique", "")
             m["checks"].append({
                 "property_id": pid,
                 "quick_cmd": f"bin/check {pid} --tier quick",
